@@ -35,7 +35,7 @@ MovesWhyR ==
     IF ~FamilyOK(R.scheme, R.p, R.c) THEN "Family"
     ELSE IF R.setup # "built" THEN "NoRaiseOnValid"
     ELSE MovesWhy(R.scheme, R.run1, R.run2, R.inb1, R.inb2)
-MovesDrift == FlatLen(R.run1) # MovesBlocks(R.scheme, R.p, R.c) \/ FlatLen(R.run2) # MovesBlocks(R.scheme, R.p, R.c)
+MovesDrift == ~R.partial /\ (FlatLen(R.run1) # MovesBlocks(R.scheme, R.p, R.c) \/ FlatLen(R.run2) # MovesBlocks(R.scheme, R.p, R.c))
 
 Why == IF R.kind = "labels" THEN LabelsWhy ELSE IF R.kind = "moves" THEN MovesWhyR ELSE "unknown-kind"
 Drift == IF R.kind = "labels" THEN LabelsDrift ELSE MovesDrift
